@@ -87,6 +87,9 @@ partial def loop (h : IO.FS.Stream) (out : IO.FS.Stream) (cache : VCache) : IO U
   else if ["proverdec", "ckraw", "ppdec", "evalsdec", "proveruse"].contains (toks.headD "") then
     out.putStrLn (codecAnswer t)
     loop h out cache
+  else if toks.headD "" == "provelie" then
+    out.putStrLn (proveLieAnswer t)
+    loop h out cache
   else if toks.headD "" == "prove" then
     out.putStrLn (proveAnswer t)
     loop h out cache
